@@ -20,7 +20,7 @@ import re
 import warnings
 
 import core  # noqa: F401
-from rdflib import BNode, Dataset, Graph, Literal, URIRef
+from rdflib import BNode, ConjunctiveGraph, Dataset, Graph, Literal, URIRef
 from rdflib.graph import ReadOnlyGraphAggregate
 from rdflib.namespace import RDF
 from rdflib.paths import (AlternativePath, InvPath, MulPath, NegatedPath, SequencePath, eval_path, evalPath, inv_path,
@@ -52,9 +52,10 @@ RULE = ("random path expressions (depth <= 4 quick / <= 6 thorough; iri, ^, /, |
         "namespace manager; lines n3| = the text's tokens vs the Lean writer, readn3 = rdflib's parse tree and translatePath object of that "
         "text vs the Lean reader and translate), route api (in / objects / subjects / subject_objects with unique False and True, [x, x] as "
         "a list-valued end, Graph.value), route first_false (MulPath.eval(..., first=False) when the top is a MulPath) and the binding shapes of a path pattern in a "
-        "BGP: ?x path ?x (same variable twice; also pre-bound by initBindings / VALUES), an end bound by another triple pattern written before / after.  non-trivial = the path has an operator and some binding with a given end has a non-empty answer; "
+        "BGP: ?x path ?x (same variable twice; also pre-bound by initBindings / VALUES), an end bound by another triple pattern written before / after.  Round h: every route that takes the case's graph object runs on one of five KINDS (plain Graph; Dataset(default_union=True), ConjunctiveGraph - three contexts of one store read as their union; ReadOnlyGraphAggregate of 2-3 members; ds.graph(g1) - a named-graph view beside other contexts holding other triples), route view compares triples() with the Lean evaluator over that OBJECT (plainView / unionView / aggView of the members), routes sparql_gvar1/2 = GRAPH ?g { s path o } per named graph.  non-trivial = the path has an operator and some binding with a given end has a non-empty answer; "
         "distinct = distinct (triples, path, ends)")
-ASSUMPTIONS = ["a Graph / Dataset / aggregate view is the set of its triples (C01/C02/C15)",
+ASSUMPTIONS = ["the store answers triples(pattern, context) with the matching triples of that context (C01/C02/C15); that a path evaluation over a "
+               "Graph / Dataset / ConjunctiveGraph / aggregate / named-graph object reads it through that method only is theorem view_eval_same",
                "VALUES-bound ends are only compared when the term occurs in the graph (for an absent term the algebra's "
                "answer differs from the answer for a constant in the pattern - C15-K1; the property speaks of given terms)"]
 TRUSTED = ["harness/c11.py generators, oracle and canonicalisation (incl. the lexer n3_words of n3() text and the sorting of negated-set members)",
@@ -75,7 +76,8 @@ ROUTES = ["triples", "so", "so_unique", "so_list", "value", "slice", "resource",
           "ds_union", "ds_default", "ds_named", "agg", "in_agg", "in_ds", "sparql_const", "sparql_values",
           "sparql_tree", "sparql_init", "sparql_ds_union", "sparql_ds_default", "sparql_ds_graph", "sparql_ds_init",
           "sparql_agg", "sparql_agg_values", "sparql_agg_init", "sparql_n3", "api", "first_false",
-          "sparql_same", "sparql_join_before", "sparql_join_after", "sparql_same_init", "sparql_same_values"]
+          "sparql_same", "sparql_join_before", "sparql_join_after", "sparql_same_init", "sparql_same_values", "view",
+          "sparql_gvar1", "sparql_gvar2"]
 FULL, DEFAULT, NAMED, AGG = 0, 1, 2, 3
 ROUTE_GRAPH = {"so_unique": FULL, "so_list": FULL, "value": FULL, "slice": FULL, "resource": FULL, "eval_direct": FULL,
                "interleave": FULL, "interleave_b": DEFAULT,
@@ -85,9 +87,28 @@ ROUTE_GRAPH = {"so_unique": FULL, "so_list": FULL, "value": FULL, "slice": FULL,
                "sparql_ds_union": FULL, "sparql_ds_default": DEFAULT, "sparql_ds_graph": NAMED, "sparql_ds_init": FULL,
                "sparql_agg": AGG, "sparql_agg_values": AGG, "sparql_agg_init": AGG, "sparql_n3": FULL, "api": FULL, "first_false": FULL,
                "sparql_same": FULL, "sparql_join_before": FULL, "sparql_join_after": FULL, "sparql_same_init": FULL,
-               "sparql_same_values": FULL}
+               "sparql_same_values": FULL, "view": FULL, "sparql_gvar1": NAMED, "sparql_gvar2": NAMED}
 BGP_ROUTES = ("sparql_same", "sparql_join_before", "sparql_join_after", "sparql_same_init", "sparql_same_values")
 GNAME2 = URIRef(E + "g2")
+# round h: the KIND of graph object every `env["g"]` route runs on (case["kind"]):
+#   graph     a plain Graph holding all the triples
+#   ds_union  Dataset(default_union=True): default graph + named graphs g1, g2, read as their union
+#   cg        ConjunctiveGraph with the same three contexts (its default view is the union)
+#   agg       ReadOnlyGraphAggregate of 2-3 member graphs
+#   named     ds.graph(g1): a named-graph view of a dataset whose other graphs hold OTHER triples on the same store
+KINDS = ["graph", "ds_union", "cg", "agg", "named"]
+VIEW_ROUTES = {"view", "triples", "so", "so_unique", "so_list", "value", "slice", "resource", "eval_direct", "interleave",
+               "sparql_const", "sparql_values", "sparql_tree", "sparql_init", "sparql_n3", "api", "first_false",
+               "sparql_same", "sparql_join_before", "sparql_join_after", "sparql_same_init", "sparql_same_values"}
+
+
+def view_part(case):
+    """which list of triples the view of the case holds (index into _graphs(case))"""
+    return {"agg": AGG, "named": NAMED}.get(case.get("kind", "graph"), FULL)
+
+
+def route_part(route, case):
+    return view_part(case) if route in VIEW_ROUTES else ROUTE_GRAPH[route]
 
 
 # ------------------------------------------------------------------ paths
@@ -695,7 +716,8 @@ def gen_empty_view(rng):
         o = s
     return {"triples": T, "ghost": ghost, "path": path, "ends": [[s, None], [None, o], [s, o], [None, None]],
             "routes": ["triples", "so", "agg", "ds_default", "ds_named", "sparql_const", "sparql_tree", "sparql_ds_union",
-                       "sparql_ds_default", "sparql_ds_graph", "sparql_n3"] + list(BGP_ROUTES), "style": rng.choice([0, 1, 2])}
+                       "sparql_ds_default", "sparql_ds_graph", "sparql_n3"] + list(BGP_ROUTES) + ["view", "sparql_gvar1", "sparql_gvar2"],
+            "style": rng.choice([0, 1, 2]), "kind": rng.choice(KINDS)}
 
 
 # ---- incremental construction from shared sub-path objects ------------------------------------------------
@@ -880,7 +902,7 @@ def gen_case(rng, tier, i):
     if rng.random() < 0.15:
         o = s
     ends = [[None, None], [s, None], [None, o], [s, o]]
-    routes = ["triples", "so", "agg", "in_agg", "sparql_n3", "api", "first_false"] + list(BGP_ROUTES)
+    routes = ["triples", "view", "so", "agg", "in_agg", "sparql_n3", "api", "first_false"] + list(BGP_ROUTES)
     routes += rng.sample(["so_unique", "so_list", "value", "slice", "resource", "eval_direct", "interleave"],
                          2 if tier == "quick" else 4)
     if "interleave" in routes:
@@ -891,12 +913,19 @@ def gen_case(rng, tier, i):
     if i % 2 == 0:
         routes += ["sparql_const", "sparql_values", "sparql_tree"]
         if "ds_union" in routes:
-            routes += ["sparql_ds_union", "sparql_ds_default", "sparql_ds_graph", "sparql_ds_init"]
+            routes += ["sparql_ds_union", "sparql_ds_default", "sparql_ds_graph", "sparql_ds_init", "sparql_gvar1", "sparql_gvar2"]
         else:
             # SPARQL over the composite graph: the hops of a path lie in different member graphs
             routes += ["sparql_agg", "sparql_agg_values", "sparql_agg_init", "sparql_init"]
+    kind = rng.choice(["graph", "graph", "ds_union", "cg", "agg", "named"])
+    if kind == "named":
+        # the ends refer to the named graph's own triples where possible
+        usedn = {x for t in T if t[3] in (1, 2) for x in (t[0], t[2])}
+        if usedn and rng.random() < 0.7:
+            s2, o2 = rng.choice(sorted(usedn)), rng.choice(sorted(usedn))
+            ends = [[None, None], [s2, None], [None, o2], [s2, o2 if rng.random() < 0.8 else s2]]
     return {"triples": T, "path": path, "ends": ends, "routes": routes, "style": rng.choice([0, 1, 2]),
-            "store": rng.choice(["Memory", "Memory", "SimpleMemory"])}
+            "store": rng.choice(["Memory", "Memory", "SimpleMemory"]) if kind == "graph" else "Memory", "kind": kind}
 
 
 # ------------------------------------------------------------------ implementation side
@@ -937,8 +966,10 @@ def _applicable(route, case, s, o, parts):
         return False        # shapes of the both-ends-free pattern: `?x path ?x`, an end also bound by another pattern
     if route in ("sparql_same_init", "sparql_same_values") and (s is None or o is not None):
         return False        # `?x path ?x` with ?x pre-bound to the case's start term
-    if route == "sparql_same_values" and s not in {x for t in parts[FULL] for x in (t[0], t[2])}:
+    if route == "sparql_same_values" and s not in {x for t in parts[view_part(case)] for x in (t[0], t[2])}:
         return False        # VALUES with a term absent from the graph: C15-K1 (see ASSUMPTIONS)
+    if route == "sparql_gvar2" and not _third(case):
+        return False        # the second named graph is only registered in ds_u / ds_d when it holds a triple
     if route == "first_false" and case["path"][0] != "m":
         return False        # MulPath.eval(graph, s, o, first=False): only a MulPath has the flag
     one_end = (s is None) != (o is None)
@@ -955,7 +986,7 @@ def _applicable(route, case, s, o, parts):
     if route.endswith("_init") and s is None and o is None:
         return False
     if route in ("sparql_values", "sparql_agg_values"):
-        used = {x for t in parts[FULL] for x in (t[0], t[2])}
+        used = {x for t in parts[route_part(route, case)] for x in (t[0], t[2])}
         if (s is None and o is None) or any(x not in used for x in (s, o) if x is not None):
             return False
     return True
@@ -970,7 +1001,7 @@ def _run_route(route, env, path_ast, s, o):
     S, O = (None if s is None else TERM[s]), (None if o is None else TERM[o])
     P = env["path"]
     back = lambda pairs: [(REV[a], REV[b]) for a, b in pairs]  # noqa: E731
-    if route == "triples":
+    if route in ("triples", "view"):     # `view`: same call, compared with the Lean evaluator over the graph OBJECT (veval)
         return back((a, b) for a, _p, b in env["g"].triples((S, P, O)))
     if route == "so":
         g = env["g"]
@@ -1065,6 +1096,18 @@ def _run_route(route, env, path_ast, s, o):
         return [(s, o)] if (S, P, O) in env["ds_u"] else []
     txt = None if has_empty_alt(path_ast) else sparql_text(path_ast, env["style"])
     g = env["g"]
+    if route in ("sparql_gvar1", "sparql_gvar2"):
+        # GRAPH ?g { s path o } over the dataset: one evaluation per named graph (never the default graph), ?g bound to it
+        ds = env["ds_d"] if env["style"] else env["ds_u"]
+        pat = "%s %s %s" % ("?s" if s is None else _n3(s), txt, "?o" if o is None else _n3(o))
+        rows = ds.query(PFX + "SELECT ?g ?s ?o WHERE { GRAPH ?g { %s } }" % pat).bindings
+        from rdflib.term import Variable
+        vg, vs, vo = Variable("g"), Variable("s"), Variable("o")
+        strange = {r[vg] for r in rows} - {GNAME, GNAME2}
+        if strange:
+            raise ValueError("GRAPH ?g bound to %r" % sorted(strange))
+        want_g = GNAME if route == "sparql_gvar1" else GNAME2
+        return back((r.get(vs, S), r.get(vo, O)) for r in rows if r[vg] == want_g)
     if route in BGP_ROUTES:
         if route == "sparql_same":
             res = g.query(PFX + "SELECT ?x WHERE { ?x %s ?x }" % txt)
@@ -1145,16 +1188,39 @@ def _fill(graph, triples, ghost):
 def _build_env(case, parts):
     env = {"style": case.get("style", 0)}
     ghost = [tuple(t) for t in case.get("ghost", [])]
-    g = Graph(store=case.get("store", "Memory"))
-    _fill(g, parts[FULL], ghost)
+    kind = case.get("kind", "graph")
+    third0 = _third(case)
+    if kind == "graph":
+        g = Graph(store=case.get("store", "Memory"))
+        _fill(g, parts[FULL], ghost)
+    elif kind in ("ds_union", "cg", "named"):
+        # one store, three contexts; `named` looks at it through ds.graph(g1) only (union on or off by style)
+        ds = ConjunctiveGraph() if kind == "cg" else Dataset(default_union=(kind == "ds_union" or case.get("style", 0) == 1))
+        _fill(ds.default_context, parts[DEFAULT], ghost)
+        ng = ds.get_context(GNAME) if kind == "cg" else ds.graph(GNAME)
+        _fill(ng, parts[NAMED], ghost)
+        if third0 or case.get("style"):
+            _fill(ds.get_context(GNAME2) if kind == "cg" else ds.graph(GNAME2), third0, ghost)
+        g = ng if kind == "named" else ds
+        env["view_owner"] = ds
+    else:
+        m0, m1 = Graph(), Graph()
+        _fill(m0, parts[DEFAULT], ghost)
+        _fill(m1, parts[NAMED], ghost)
+        ms = [m0, m1]
+        if third0 or case.get("style"):
+            m2 = Graph()
+            _fill(m2, third0, ghost)
+            ms.append(m2)
+        g = ReadOnlyGraphAggregate(ms)
     env["g"] = g
-    env["T"] = parts[FULL]
+    env["T"] = parts[view_part(case)]
     if "interleave" in case["routes"]:
         g0 = Graph()
         _fill(g0, parts[DEFAULT], ghost)
         env["g0"] = g0
     third = _third(case)
-    if any(r.startswith("ds_") or r.startswith("sparql_ds") or r == "in_ds" for r in case["routes"]):
+    if any(r.startswith("ds_") or r.startswith("sparql_ds") or r.startswith("sparql_gvar") or r == "in_ds" for r in case["routes"]):
         for key, union in (("ds_u", True), ("ds_d", False)):
             ds = Dataset(default_union=union)
             _fill(ds.default_context if hasattr(ds, "default_context") else ds, parts[DEFAULT], ghost)
@@ -1305,6 +1371,7 @@ def run_impl(case):
     stats["self_loop"] = int(any(t[0] == t[2] for t in parts[FULL]))
     stats["axis_build_" + {0: "constructors", 1: "operators", 2: "helper_functions"}[case.get("style", 0)]] = 1
     stats["axis_store_" + case.get("store", "Memory")] = 1
+    stats["axis_kind_" + case.get("kind", "graph")] = 1
     stats["axis_members_3"] = int(bool(_third(case)))
     if any(t[1] == 14 for t in parts[FULL]) or _has(ast, lambda a: a[0] == "i" and a[1] == 14):
         stats["axis_rdf_type_a"] = 1
@@ -1328,7 +1395,7 @@ def run_impl(case):
             obs.append(const_line.get((s, o), "ERR:Other"))
             stats["route_sparql_tree"] = stats.get("route_sparql_tree", 0) + 1
             continue
-        T = parts[ROUTE_GRAPH[route]]
+        T = parts[route_part(route, case)] if route != "sparql_gvar2" else _third(case)
         want = expected(ast, T, s, o)
         ast_r = ast
         if route == "first_false" and not (s is None and o is None):
@@ -1436,6 +1503,7 @@ def model_lines(case):
                 lines.append(f"eval {_w(s)} {_w(o)} {toks}")
         return lines
     parts = _graphs(case)
+    vT = parts[view_part(case)]
     toks = " ".join(path_tokens(case["path"]))
     lines = []
     for T in parts:
@@ -1447,11 +1515,11 @@ def model_lines(case):
             stoks = " ".join(parser_tree_tokens(case["path"], case.get("style", 0)))
         except Exception as e:  # the parser rejects / mangles the text: shows as a divergence on this route
             stoks = "unparsed " + type(e).__name__
-        lines.append("graph " + " ".join("%d,%d,%d" % t for t in parts[FULL]))
+        lines.append("graph " + " ".join("%d,%d,%d" % t for t in vT))
         for s, o in case["ends"]:
             lines.append(f"evalsyn {_w(s)} {_w(o)} {stoks}")
     if "sparql_n3" in case["routes"]:
-        lines.append("graph " + " ".join("%d,%d,%d" % t for t in parts[FULL]))
+        lines.append("graph " + " ".join("%d,%d,%d" % t for t in vT))
         for s, o in case["ends"]:
             lines.append(f"evaln3 {_w(s)} {_w(o)} {toks}")
         lines.append("n3 " + toks)
@@ -1461,18 +1529,35 @@ def model_lines(case):
             words = "unwritten " + type(e).__name__
         lines.append("readn3 " + words)
     if "api" in case["routes"]:
-        lines.append("graph " + " ".join("%d,%d,%d" % t for t in parts[FULL]))
+        lines.append("graph " + " ".join("%d,%d,%d" % t for t in vT))
         for s, o in case["ends"]:
             lines.append(f"api {_w(s)} {_w(o)} {toks}")
     if "first_false" in case["routes"] and case["path"][0] == "m":
-        lines.append("graph " + " ".join("%d,%d,%d" % t for t in parts[FULL]))
+        lines.append("graph " + " ".join("%d,%d,%d" % t for t in vT))
         for s, o in case["ends"]:
             lines.append(f"evalf {_w(s)} {_w(o)} {toks}")
     if "sparql_same" in case["routes"]:
-        lines.append("graph " + " ".join("%d,%d,%d" % t for t in parts[FULL]))
+        lines.append("graph " + " ".join("%d,%d,%d" % t for t in vT))
         lines += ["bgp same * " + toks, "bgp before " + toks, "bgp after " + toks]
         for s, o in case["ends"]:
             lines.append(f"bgp same {_w(s)} {toks}")
+    if "sparql_gvar1" in case["routes"]:
+        for T in (parts[NAMED], _third(case)):
+            for s, o in case["ends"]:
+                lines.append(f"veval plain {_w(s)} {_w(o)} {toks} / " + " ".join("%d,%d,%d" % t for t in T))
+    if "view" in case["routes"]:
+        kind = case.get("kind", "graph")
+        tl = lambda T: " ".join("%d,%d,%d" % t for t in T)  # noqa: E731
+        if kind in ("graph", "named"):
+            vk, ms = "plain", [vT]
+        else:
+            # the contexts of the store / the members of the aggregate, as _build_env fills them
+            vk, ms = ("agg" if kind == "agg" else "union"), [parts[DEFAULT], parts[NAMED]]
+            if _third(case) or case.get("style"):
+                ms.append(_third(case))
+        tail = "".join(" / " + tl(m) for m in ms)
+        for s, o in case["ends"]:
+            lines.append(f"veval {vk} {_w(s)} {_w(o)} {toks}{tail}")
     return lines
 
 
@@ -1510,7 +1595,17 @@ def select_model_obs(case, out):
     api_base = n3_base + ((n + 3) if "sparql_n3" in case["routes"] else 0)
     ff_base = api_base + ((n + 1) if "api" in case["routes"] else 0)
     bgp_base = ff_base + ((n + 1) if "first_false" in case["routes"] and case["path"][0] == "m" else 0)
+    gvar_base = bgp_base + ((n + 4) if "sparql_same" in case["routes"] else 0)
+    view_base = gvar_base + (2 * n if "sparql_gvar1" in case["routes"] else 0)
     for s, o, route in plan:
+        if route in ("sparql_gvar1", "sparql_gvar2"):
+            line = out[gvar_base + (n if route == "sparql_gvar2" else 0) + pos[(s, o)]]
+            res.append(_dedup_line(line) if not closure and "|" in line else line)
+            continue
+        if route == "view":
+            line = out[view_base + pos[(s, o)]]
+            res.append(_dedup_line(line) if not closure and "|" in line else line)
+            continue
         if route in BGP_ROUTES:
             k = {"sparql_same": 1, "sparql_join_before": 2, "sparql_join_after": 3}.get(route, 4 + pos[(s, o)])
             line = out[bgp_base + k]
@@ -1527,7 +1622,7 @@ def select_model_obs(case, out):
         elif route == "sparql_n3":
             line = out[n3_base + 1 + pos[(s, o)]]
         else:
-            line = idx[(ROUTE_GRAPH[route], pos[(s, o)])]
+            line = idx[(route_part(route, case), pos[(s, o)])]
         if not closure and "|" in line:
             line = _dedup_line(line)
         res.append(line)
